@@ -364,8 +364,10 @@ PLAN_C07 = dict(
               quick=[SIM(140, 14, **IMPORT_ONLY), SIM(60, 16, **LIFE)],
               thorough=[SIM(2000, 16, **IMPORT_ONLY), SIM(1000, 18, **LIFE), SIM(600, 16, **dict(IMPORT_ONLY, ImportBatch='1'))]),
           gen('Gen_Imp.cfg', 'MC_Imp.tla',
-              quick=[SIM(200, 16, **IMPORT_ONLY)],
-              thorough=[SIM(3000, 18, **IMPORT_ONLY), SIM(1500, 20, **dict(IMPORT_ONLY, Crashes='TRUE'))]),
+              quick=[SIM(150, 16, **IMPORT_ONLY), SIM(900, 18, **dict(IMPORT_ONLY, GenWant='"import-reorg"'))],
+              thorough=[SIM(3000, 18, **IMPORT_ONLY), SIM(1500, 20, **dict(IMPORT_ONLY, Crashes='TRUE')),
+                        SIM(12000, 18, **dict(IMPORT_ONLY, GenWant='"import-reorg"')),
+                        SIM(6000, 20, **dict(IMPORT_ONLY, GenWant='"import-reorg"', ImportBatch='2'))]),
           gen('Gen_Stake.cfg', 'MC_Stake.tla', universe_extra=STAKE_X,
               quick=[SIM(60, 16, **IMPORT_ONLY)],
               thorough=[SIM(1500, 18, **IMPORT_ONLY)])],
